@@ -97,11 +97,18 @@ def main(argv=None):
         acc, coverage, assumptions = mod.run(args.tier, seed)
         known = findings.load(prop)
 
+        from . import par
+
+        def replay_fresh(case):
+            # the runner process itself never executes the code under test: every replay runs in a newly forked
+            # child, so module-level state of the code under test cannot leak from one replay into the next
+            return par.run_fresh(mod.replay, case)
+
         # listed findings: re-execute each witness on the current tree
         lines = []
         stale = []
         for e in known:
-            cores = [c for c, _ in mod.replay(e["witness"])]
+            cores = [c for c, _ in replay_fresh(e["witness"])]
             if any(findings.match([e], c) for c in cores):
                 lines.append(f"KNOWN-FINDING: property={prop} {e['what']}")
             else:
@@ -125,8 +132,8 @@ def main(argv=None):
             if isinstance(ex["case"], dict):
                 ex["case"] = dict(ex["case"], _core=core)  # lets a replay look for exactly this violation
             # a violation must reproduce from its recorded case before it is believed
-            again = [c for c, _ in mod.replay(ex["case"])]
-            again2 = [c for c, _ in mod.replay(ex["case"])]
+            again = [c for c, _ in replay_fresh(ex["case"])]
+            again2 = [c for c, _ in replay_fresh(ex["case"])]
             if core not in again or again != again2:
                 print(f"HARNESS-ERROR property={prop} violation does not replay deterministically: {core}")
                 print(f"  first={again} second={again2}")
